@@ -54,7 +54,7 @@ fn main() {
         "C03" => bddprops::c03(&mut out, tier, &mut rng, &mut st),
         "C04" => { bddprops::c04(&mut out, tier, &mut rng, &mut st); formula::c04_lang(&mut out, tier, &mut rng, &mut st) }
         "C05" => { bddprops::c05(&mut out, tier, &mut rng, &mut st); formula::c05_lang(&mut out, tier, &mut rng, &mut st) }
-        "C07" => { bddprops::c07(&mut out, tier, &mut rng, &mut st); bddprops::c07_raw(&mut out, tier, &mut rng, &mut st) }
+        "C07" => { bddprops::c07(&mut out, tier, &mut rng, &mut st); bddprops::c07_raw(&mut out, tier, &mut rng, &mut st); cli::c07_cli(&mut out, tier, &mut rng, &mut st) }
         "C20" => { bddprops::c20(&mut out, tier, &mut rng, &mut st); cli::c20_cli(&mut out, tier, &mut rng, &mut st) }
         _ => { eprintln!("unknown property {}", prop); std::process::exit(2); }
     }
